@@ -1,13 +1,317 @@
 /-
-  Driver command `val`: see DESIGN.md.
+  Driver command `val`:
+    mbdriver val c12        validation paths: model accept/reject vs implementation, monitor `C12.wfB`
+    mbdriver val c13        `Dist::sample`: clamp and uniform model vs implementation, monitor `C13.inRangeB`
+    mbdriver val c06        `State::sample_state`: per-word and exhaustive counts vs the closed form, monitor
+    mbdriver val witnesses  print the counterexample machines of Props/C12 as replayable cases
+  Input: the protocol text written by `mbharness val-*` (see harness/src/val.rs).
+  Output: `case <id> <kind> ok|DIFF tags=…`, `sig <id> <features>`, `mon <Cxx> FAIL <id> <reason>`.
 -/
 import Driver.Parse
+import MbVerif.Validate
+import MbVerif.Spec.C12
+import MbVerif.Spec.C13
+import MbVerif.Spec.C06
 
 namespace Driver.ValRun
 open Mb Driver
 
+def hexChar (n : Nat) : Char := if n < 10 then Char.ofNat (48 + n) else Char.ofNat (87 + n)
+
+def toHex (bs : List UInt8) : String :=
+  String.ofList (bs.foldr (fun b acc => hexChar (b.toNat / 16) :: hexChar (b.toNat % 16) :: acc) [])
+
+def outOf (op : OpBlock) (key : String) : Option (List String) :=
+  (op.outs.find? (fun ws => ws.head? == some key)).map (fun ws => ws.drop 1)
+
+def out1 (op : OpBlock) (key : String) : String :=
+  match outOf op key with
+  | some (x :: _) => x
+  | _ => "-"
+
+def report (c : CaseBlock) (tags : List String) : IO Unit :=
+  if tags.isEmpty then IO.println s!"case {c.id} {c.kind} ok"
+  else IO.println s!"case {c.id} {c.kind} DIFF tags={String.intercalate "," tags}"
+
+/-! ### C12 -/
+
+def labelClass (kind : String) : String :=
+  match (words kind).drop 1 with
+  | l :: _ => (l.splitOn "-").take 2 |> String.intercalate "-"
+  | [] => "?"
+
+def runC12Case (c : CaseBlock) : IO Unit := do
+  let some mline := c.header.find? (fun ws => ws.head? == some "m") | IO.println s!"case {c.id} {c.kind} PARSE no machine"
+  let some bytes := (mline.getD 1 "").toList |> (fun cs => hexBytes (String.ofList cs)) | IO.println s!"case {c.id} {c.kind} PARSE hex"
+  let some op := c.ops.head? | IO.println s!"case {c.id} {c.kind} PARSE no op"
+  match Codec.decodeMachine bytes with
+  | none =>
+    -- the implementation produced these bytes from a machine, so the model must decode them
+    IO.println s!"case {c.id} {c.kind} DIFF tags=decode"
+  | some m =>
+    let (fp, fb) : F64 × F64 := match op.cmd with
+      | ["paths", a, b] => (UInt64.ofNat ((hexNat a).getD 0), UInt64.ofNat ((hexNat b).getD 0))
+      | _ => (0, 0)
+    let acc := Validate.machine m
+    let accFw := Validate.frameworkNew [m] fp fb
+    let exp (b : Bool) : String := if b then "ok" else "err"
+    let vV := out1 op "validate"
+    let vN := out1 op "new"
+    let vS := out1 op "fromstr"
+    let vF := out1 op "fwnew"
+    let tags :=
+      (if vV != exp acc then ["validate"] else []) ++
+      (if vN != exp acc then ["new"] else []) ++
+      (if vS != exp acc then ["fromstr"] else []) ++
+      (if vF != exp accFw then ["fwnew"] else []) ++
+      (if out1 op "enc" == "DIFF" then ["enc"] else []) ++
+      (if Codec.encMachine m != bytes then ["reencode"] else [])
+    report c tags
+    -- monitors on what the IMPLEMENTATION did
+    let accepted := [("validate", vV), ("new", vN), ("fromstr", vS), ("fwnew", vF)].filter (fun p => p.2 == "ok" || p.2 == "ok-differs")
+    let wf := C12.wfB m
+    if !accepted.isEmpty && !wf then
+      let rs := C12.reasons m
+      -- a NaN sum is only reported on its own when no NaN probability explains it
+      let rs := if rs.contains "nan-transition-probability" then rs.filter (· != "nan-probability-sum") else rs
+      let rs := if rs.isEmpty then ["unclassified"] else rs
+      for r in rs do
+        IO.println s!"mon C12 FAIL {c.id} accepted-not-wellformed reason={r} paths={String.intercalate "," (accepted.map (·.1))}"
+    -- one judgement on every path
+    if !(vV == vN && (vS == vV || (vS == "ok-differs" && vV == "ok"))) then
+      IO.println s!"mon C12 FAIL {c.id} paths-disagree validate={vV} new={vN} fromstr={vS}"
+    if vS == "ok-differs" then
+      IO.println s!"mon C12 FAIL {c.id} fromstr-returns-different-machine"
+    let fracsOK := decide (C12.Real01 (Fp.val64 fp)) && decide (C12.Real01 (Fp.val64 fb))
+    -- a framework built from accepted machines with fractions in [0,1] never fails
+    if vV == "ok" && fracsOK && vF != "ok" then
+      IO.println s!"mon C12 FAIL {c.id} framework-new-fails-on-accepted-machine result={vF}"
+    if vF == "ok" && !(vV == "ok" && fracsOK) then
+      IO.println s!"mon C12 FAIL {c.id} framework-new-accepts result={vF} validate={vV} fractions-ok={fracsOK}"
+    if [vV, vN, vS, vF].any (fun x => x == "panic" || x == "hang") then
+      IO.println s!"mon C12 FAIL {c.id} construction-path-panicked validate={vV} new={vN} fromstr={vS} fwnew={vF}"
+    IO.println s!"sig {c.id} {labelClass c.kind},{if acc then "accept" else "reject"},{if wf then "wf" else "notwf"}"
+
+/-! ### C13 -/
+
+def familyName : DistType → String
+  | .uniform .. => "uniform" | .normal .. => "normal" | .skewNormal .. => "skewnormal"
+  | .logNormal .. => "lognormal" | .binomial .. => "binomial" | .geometric .. => "geometric"
+  | .pareto .. => "pareto" | .poisson .. => "poisson" | .weibull .. => "weibull"
+  | .gamma .. => "gamma" | .beta .. => "beta"
+
+def fvClass : FV → String
+  | .nan => "nan"
+  | .inf true => "-inf"
+  | .inf false => "+inf"
+  | .fin q => if q = 0 then "0" else if q < 0 then "neg" else "pos"
+
+/-- the `64:` words of an `o words` line -/
+def parseWords (ws : List String) : Nat × List UInt64 × Bool :=
+  match ws with
+  | total :: rest =>
+    let xs := rest.filterMap (fun w => match w.splitOn ":" with
+      | ["64", h] => (hexNat h).map UInt64.ofNat
+      | _ => none)
+    (total.toNat?.getD 0, xs, xs.length == rest.length)
+  | [] => (0, [], false)
+
+def runC13Case (c : CaseBlock) : IO Unit := do
+  let some dline := c.header.find? (fun ws => ws.head? == some "d") | IO.println s!"case {c.id} {c.kind} PARSE no dist"
+  let some bytes := hexBytes (dline.getD 1 "") | IO.println s!"case {c.id} {c.kind} PARSE hex"
+  let some op := c.ops.head? | IO.println s!"case {c.id} {c.kind} PARSE no op"
+  match Codec.decDist bytes with
+  | some (d, []) =>
+    let acc := Validate.dist d
+    let vV := out1 op "validate"
+    let res := out1 op "res"
+    let mut tags : List String := if vV != (if acc then "ok" else "err") then ["validate"] else []
+    -- validation must imply the constructor preconditions (runtime echo of `C13_ctor_ok`)
+    if acc && !(C13.ctorOK d.dist) then tags := tags ++ ["ctor"]
+    let mut feats : List String := [familyName d.dist, s!"start={fvClass (Fp.val64 d.start)}", s!"max={fvClass (Fp.val64 d.max)}",
+      match op.cmd with | _ :: pk :: _ => s!"prefix={pk}" | _ => "prefix=?"]
+    if res == "ok" then
+      match outOf op "raw", outOf op "ret" with
+      | some [rawH], some [retH] =>
+        let raw : F64 := UInt64.ofNat ((hexNat rawH).getD 0)
+        let ret : F64 := UInt64.ofNat ((hexNat retH).getD 0)
+        -- the clamp
+        if !(C13.sameValue (d.clamp raw) (Fp.val64 ret)) then tags := tags ++ ["clamp"]
+        -- the uniform family is modelled down to the RNG words
+        match d.dist with
+        | .uniform lo hi =>
+          let (total, ws, all64) := parseWords ((outOf op "words").getD [])
+          if Fp.feq (Fp.val64 lo) (Fp.val64 hi) then
+            feats := feats ++ ["const"]
+            if !(C13.sameValue (Fp.val64 raw) (Fp.val64 lo)) || total != 0 then tags := tags ++ ["uniform-const"]
+          else
+            feats := feats ++ ["range"]
+            if !all64 then tags := tags ++ ["uniform-word-kind"]
+            else match C13.uniformF64Loop lo hi ws 0 with
+              | some (v, n) =>
+                if n > 1 then feats := feats ++ ["retry"]
+                if !(C13.sameValue v (Fp.val64 raw)) then tags := tags ++ ["uniform-value"]
+                if n != total then tags := tags ++ ["uniform-words"]
+              | none => if total ≤ ws.length then tags := tags ++ ["uniform-loop"] else pure ()
+        | _ => pure ()
+        report c tags
+        if !(C13.inRangeB (Fp.val64 d.max) (Fp.val64 ret)) then
+          IO.println s!"mon C13 FAIL {c.id} out-of-range ret={retH} max={fvClass (Fp.val64 d.max)} family={familyName d.dist}"
+        feats := feats ++ [s!"raw={fvClass (Fp.val64 raw)}", s!"ret={fvClass (Fp.val64 ret)}"]
+      | _, _ => report c (tags ++ ["missing-output"])
+    else if res == "skipped" then
+      report c tags
+      feats := feats ++ ["invalid"]
+    else
+      report c tags
+      IO.println s!"mon C13 FAIL {c.id} {res} family={familyName d.dist}"
+    IO.println s!"sig {c.id} {String.intercalate "," feats}"
+  | _ => IO.println s!"case {c.id} {c.kind} DIFF tags=decode"
+
+/-! ### C06 -/
+
+def parseVec (ws : List String) : Option (Nat × List Trans) :=
+  match ws with
+  | "v" :: ns :: rest => do
+    let n ← ns.toNat?
+    let ts ← rest.mapM (fun w => match w.splitOn ":" with
+      | [t, h] => do some ({ target := ← t.toNat?, prob := UInt32.ofNat (← hexNat h) } : Trans)
+      | _ => none)
+    some (n, ts)
+  | _ => none
+
+def parseTarget (s : String) : Option (Option Nat) :=
+  if s == "none" then some none else s.toNat?.map some
+
+def two (e : Nat) : Rat := 1 / ((2 ^ e : Nat) : Rat)
+
+def probOf (t : Trans) : Rat :=
+  match Fp.val32 t.prob with
+  | .fin q => q
+  | _ => 0
+
+/-- exact (unrounded) cumulative sums of the declared probabilities -/
+def exactSums (ts : List Trans) : List Rat :=
+  (ts.foldl (fun (acc : Rat × List Rat) t => let s := acc.1 + probOf t; (s, acc.2 ++ [s])) (0, [])).2
+
+/-- independent reading of the property for one draw: the chosen transition's exact cumulative
+    interval contains `r` up to the f32 rounding slack `(i+1)·2^-24` -/
+def drawPlausible (ts : List Trans) (r : Rat) (res : Option Nat) : Bool :=
+  let sums := exactSums ts
+  let slack (i : Nat) : Rat := ((i + 1 : Nat) : Rat) * two 24
+  match res with
+  | none => decide (sums.getLast?.getD 0 - slack ts.length ≤ r)
+  | some t =>
+    match ts.findIdx? (fun x => x.target == t) with
+    | none => false
+    | some i =>
+      let lo := if i = 0 then 0 else sums.getD (i - 1) 0
+      let hi := sums.getD i 0
+      decide (lo - slack i ≤ r) && decide (r < hi + slack i)
+
+def runC06Case (c : CaseBlock) : IO Unit := do
+  let some (ns, ts) := (c.header.find? (fun ws => ws.head? == some "v")).bind parseVec | IO.println s!"case {c.id} {c.kind} PARSE vector"
+  let some op := c.ops.head? | IO.println s!"case {c.id} {c.kind} PARSE no op"
+  let valid := Validate.transVec ns ts
+  let wf := C12.vecWfB ns ts
+  let mut tags : List String := []
+  -- the harness only emits vectors that `Machine::new` accepted
+  if !valid then tags := tags ++ ["validate"]
+  let probOne := match ts with
+    | t :: _ => Fp.val32 t.prob == .fin 1
+    | [] => false
+  let mut feats : List String := [s!"k{ts.length}"] ++ (if probOne then ["p1"] else []) ++
+    (if ts.any (fun t => t.target == STATE_END) then ["END"] else []) ++
+    (if ts.any (fun t => t.target == STATE_SIGNAL) then ["SIGNAL"] else []) ++
+    (match C06.total (.fin 0) ts with | .fin q => if q = 1 then ["sum1"] else ["sum<1"] | _ => ["sum?"])
+  match op.cmd with
+  | "words" :: _ =>
+    feats := feats ++ ["words"]
+    let mut monFails : List String := []
+    for o in op.outs do
+      match o with
+      | ["w", wordH, bitsH, tgt, n32, n64] =>
+        let word : UInt32 := UInt32.ofNat ((hexNat wordH).getD 0)
+        let k := word.toNat / 2 ^ 9
+        match C13.draw01 word with
+        | none => tags := tags ++ ["draw-retry"]
+        | some r =>
+          if r != C06.draw k then tags := tags ++ ["draw-model"]
+          match hexNat bitsH with
+          | some b => if Fp.val32 (UInt32.ofNat b) != r then tags := tags ++ ["draw"]
+          | none => tags := tags ++ ["draw-missing"]
+          let model := sampleLoop r (.fin 0) ts
+          match parseTarget tgt with
+          | some res =>
+            if res != model then tags := tags ++ ["target"]
+            let rq : Rat := (k : Rat) / (C06.N : Rat)
+            if !(drawPlausible ts rq res) then monFails := monFails ++ [s!"word={wordH}:got={tgt}"]
+            if probOne && res != ts.head?.map (·.target) then monFails := monFails ++ [s!"probability-one-not-taken:word={wordH}"]
+          | none => tags := tags ++ ["target-parse"]
+        if n32 != "1" || n64 != "0" then tags := tags ++ ["calls"]
+      | ["novec", bits, tgt, n32, n64] =>
+        if !(bits == "-" && tgt == "none" && n32 == "0" && n64 == "0") then
+          tags := tags ++ ["novec"]
+          monFails := monFails ++ [s!"no-vector-moved:{tgt}"]
+      | _ => pure ()
+    report c tags.eraseDups
+    if !wf then IO.println s!"mon C06 FAIL {c.id} accepted-vector-not-wellformed"
+    if !monFails.isEmpty then
+      IO.println s!"mon C06 FAIL {c.id} wrong-side-of-threshold {String.intercalate " " (monFails.take 4)}"
+  | ["exhaustive"] =>
+    feats := feats ++ ["exhaustive"]
+    let (cf, cfNone) := C06.closedForm ts
+    match outOf op "counts" with
+    | some ws =>
+      let kv := ws.filterMap (fun w => match w.splitOn ":" with
+        | [a, b] => b.toNat?.map (fun n => (a, n))
+        | _ => none)
+      let get (k : String) : Nat := ((kv.find? (fun p => p.1 == k)).map (·.2)).getD 0
+      let implCounts := (kv.take ts.length).map (·.2)
+      if implCounts != cf.map (·.2) then tags := tags ++ ["counts"]
+      if (kv.take ts.length).map (·.1) != cf.map (fun p => toString p.1) then tags := tags ++ ["count-targets"]
+      if get "none" != cfNone then tags := tags ++ ["count-none"]
+      if get "other" != 0 then tags := tags ++ ["other-target"]
+      if get "drawbad" != 0 then tags := tags ++ ["draw"]
+      if get "callsbad" != 0 then tags := tags ++ ["calls"]
+      report c tags
+      if !wf then IO.println s!"mon C06 FAIL {c.id} accepted-vector-not-wellformed"
+      -- the property: share of target i within 2^-23 + 2^-24 of p_i (`C06_share_close`); residual share likewise
+      let N : Rat := (C06.N : Rat)
+      let tol : Rat := two 23 + two 24
+      let mut bad : List String := []
+      for (t, n) in ts.zip implCounts do
+        let share : Rat := (n : Rat) / N
+        let d := share - probOf t
+        if !(decide (-tol ≤ d) && decide (d ≤ tol)) then bad := bad ++ [s!"target={t.target}:count={n}"]
+      let sumP := ts.foldl (fun a t => a + probOf t) (0 : Rat)
+      let dn : Rat := (get "none" : Rat) / N - (1 - sumP)
+      let tolN : Rat := two 23 + (ts.length : Rat) * two 24
+      if !(decide (-tolN ≤ dn) && decide (dn ≤ tolN)) then bad := bad ++ [s!"none:count={get "none"}"]
+      if implCounts.foldl (· + ·) 0 + get "none" + get "other" != C06.N then bad := bad ++ ["counts-do-not-add-up"]
+      if probOne && implCounts.head? != some C06.N then bad := bad ++ ["probability-one-not-always-taken"]
+      if !bad.isEmpty then IO.println s!"mon C06 FAIL {c.id} share-off {String.intercalate " " bad}"
+    | none => report c (tags ++ ["missing-output"])
+  | _ => IO.println s!"case {c.id} {c.kind} PARSE op"
+  IO.println s!"sig {c.id} {String.intercalate "," feats}"
+
+/-! ### witnesses of Props/C12 -/
+
+def witnesses : IO Unit := do
+  for (name, m) in [("nan-fraction", C12.witnessNanFraction), ("nan-probability", C12.witnessNanProbability)] do
+    IO.println s!"case witness-{name} c12 witness-{name}"
+    IO.println s!"m {toHex (Codec.encMachine m)}"
+    IO.println "orc 0 0"
+    IO.println "paths 0000000000000000 0000000000000000"
+    IO.println "end"
+
 /-- run the `val` command over the parsed case blocks; `args` are the extra command-line words -/
-def run (_cases : List CaseBlock) (_args : List String) : IO Unit := do
-  IO.println "val: not implemented"
+def run (cases : List CaseBlock) (args : List String) : IO Unit := do
+  match args with
+  | ["witnesses"] => witnesses
+  | ["c12"] => for c in cases do runC12Case c
+  | ["c13"] => for c in cases do runC13Case c
+  | ["c06"] => for c in cases do runC06Case c
+  | _ => IO.println "usage: mbdriver val c12|c13|c06|witnesses"
 
 end Driver.ValRun
